@@ -38,7 +38,7 @@ Ex(i) == CASE i = 1 -> ENull
 
 OpList == <<"+", "-", "*", "/", "%", "&&", "||", "==", "!=", "<", "<=", ">", ">=", "===", "!==">>
 AssignOps == {"+", "-", "*", "/", "%"}
-Forms == {"plain", "var", "elem", "prop"}
+Forms == {"plain", "var", "elem", "prop", "key"}
 
 Prelude == <<SFn(F, <<>>, FALSE, <<>>)>>
 
@@ -53,6 +53,8 @@ OpProg(op, i, j, form) ==
       [] form = "var"   -> <<SDecl(EVar(A), Ex(i)), SOpAssign(EVar(A), op, Ex(j)), SPrint(EVar(A))>>
       [] form = "elem"  -> <<SDecl(EVar(Xs), EList(<<Ex(i)>>)),
                              SOpAssign(EIndex(EVar(Xs), EInt(0)), op, Ex(j)), SPrint(EVar(Xs))>>
+      [] form = "key"   -> <<SDecl(EVar(O), EObj(<<Pair(EStr(Pn), Ex(i))>>)),
+                             SOpAssign(EIndex(EVar(O), EStr(Pn)), op, Ex(j)), SPrint(EVar(O))>>
       [] form = "prop"  -> <<SDecl(EVar(O), EObj(<<Pair(EStr(Pn), Ex(i))>>)),
                              SOpAssign(EProp(EVar(O), Pn), op, Ex(j)), SPrint(EVar(O))>>
 
